@@ -152,7 +152,14 @@ pub fn generate(out: &mut Out, tier: &str, seed: u64) {
     let n = if thorough { 60000 } else { 3000 };
     for i in 0..n {
         let cfg = GenCfg { max_ops: if i % 4 == 0 { 40 } else { 14 }, removals: if i % 3 == 0 { 0 } else { 4 }, invalid: 12, values: false };
-        let ops = gen_history(&mut rng, &cfg);
+        let mut ops = gen_history(&mut rng, &cfg);
+        if i % 3 == 1 {
+            // shrink_to_fit (performance only) somewhere in the history: nothing observable may change
+            for _ in 0..1 + rng.below(2) {
+                let at = rng.below(ops.len() + 1);
+                ops.insert(at, l(vec![crate::sx::a(14)]));
+            }
+        }
         for op in &ops {
             out.count(match op.nth(0).int() {
                 0 => "op_add_resource",
@@ -163,6 +170,7 @@ pub fn generate(out: &mut Out, tier: &str, seed: u64) {
                 5 => "op_remove_data",
                 6 => "op_remove_key",
                 7 => "op_remove_resource",
+                14 => "op_shrink_to_fit",
                 _ => "op_remove_dataset",
             });
             if op.nth(0).int() == 3 {
@@ -194,5 +202,5 @@ pub fn generate(out: &mut Out, tier: &str, seed: u64) {
     }
 }
 
-pub const RULE: &str = "a deterministic family of 750 histories with a complex selector over three annotations on adjacent text, every member without offset / covering the whole target in three alignments / covering a part (the internal RangedAnnotationSelector with and without text triggers, extends, just misses; every complex kind, two orders; then an annotation on it and removals); for every complex target after every operation the stored subselector vector and its expansion, compared with the model's own compression and expansion; a deterministic family of 162 histories in which the text-selection handles of two resources line up with the internal range compression of complex selectors (every complex kind, three member orders, then removal of both resources); seeded random histories of 1..14 (every 4th: 1..40) operations over <=6 resources of 0..8 codepoints, <=4 datasets, all nine selector kinds (text, annotation with and without relative offset, resource, dataset, key, data, Multi/Composite/Directional with 1..4 members incl. consecutive ranges that trigger and just miss range compression), references by id and by handle, data with and without ids, the same data twice, duplicate ids, one in 12 references invalid, removals of annotations/data (strict and not)/keys/resources/datasets (two thirds of the histories); after EVERY operation the outcome and, for every annotation, resource (with every known text selection), dataset (with every key and data item) slot, all reverse lookups through the public API, plus id resolution of 10 tokens per kind. One evaluation = one item record or operation outcome; non-trivial = history with a successful annotate/removal; distinct = distinct histories.";
+pub const RULE: &str = "a deterministic family of 750 histories with a complex selector over three annotations on adjacent text, every member without offset / covering the whole target in three alignments / covering a part (the internal RangedAnnotationSelector with and without text triggers, extends, just misses; every complex kind, two orders; then an annotation on it and removals); for every complex target after every operation the stored subselector vector and its expansion, compared with the model's own compression and expansion; a deterministic family of 162 histories in which the text-selection handles of two resources line up with the internal range compression of complex selectors (every complex kind, three member orders, then removal of both resources); seeded random histories of 1..14 (every 4th: 1..40) operations over <=6 resources of 0..8 codepoints, <=4 datasets, all nine selector kinds (text, annotation with and without relative offset, resource, dataset, key, data, Multi/Composite/Directional with 1..4 members incl. consecutive ranges that trigger and just miss range compression), references by id and by handle, shrink_to_fit calls in a third of the histories, data with and without ids, the same data twice, duplicate ids, one in 12 references invalid, removals of annotations/data (strict and not)/keys/resources/datasets (two thirds of the histories); after EVERY operation the outcome and, for every annotation, resource (with every known text selection), dataset (with every key and data item) slot, all reverse lookups through the public API, plus id resolution of 10 tokens per kind. One evaluation = one item record or operation outcome; non-trivial = history with a successful annotate/removal; distinct = distinct histories.";
 pub const EXHAUSTIVE: bool = false;
